@@ -139,9 +139,24 @@ func cmdKConfig(args []string) error {
 			return t, t, "'" + t + "'"
 		}
 	}
+	// pairs of cases in ONE session on ONE project folder (the file is not touched in between): case A (id = 0 mod 5)
+	// overrides some numeric keys, case B (the next one) gives the same numbers, in the same order, to OTHER numeric keys
+	type pairState struct {
+		root     string
+		session  *hermes.HermesSession
+		fileVals map[string]string
+		vals     []string // value texts of A's overrides in declaration order
+		canon    []string
+		keysA    map[string]bool
+	}
+	var pair *pairState
 	for id := 1; id <= *cases; id++ {
 		r := rand.New(rand.NewSource(*seed*2750159 + int64(id)))
 		root := filepath.Join(*dir, fmt.Sprintf("kc%d", id))
+		isA, isB := id%5 == 0 && id < *cases, id%5 == 1 && pair != nil
+		if isB {
+			root = pair.root
+		}
 		pd := filepath.Join(root, "project", "p")
 		os.MkdirAll(pd, 0755)
 		fileVals := map[string]string{}
@@ -167,6 +182,55 @@ func cmdKConfig(args []string) error {
 				t, c, _ := randVal(r, k)
 				argVals[k.name] = t
 				argCanon[k.name] = c
+			}
+		}
+		if isA || isB {
+			// numeric overrides only
+			argVals, argCanon = map[string]string{}, map[string]string{}
+			var floats []key
+			for _, k := range keys {
+				if k.kind == "float" {
+					floats = append(floats, k)
+				}
+			}
+			if isA {
+				m := 2 + r.Intn(3)
+				pick := r.Perm(len(floats))[:m]
+				chosen := map[int]bool{}
+				for _, j := range pick {
+					chosen[j] = true
+				}
+				pair = &pairState{root: root, fileVals: fileVals, keysA: map[string]bool{}}
+				for j, k := range floats { // declaration order
+					if chosen[j] {
+						t, cn, _ := randVal(r, k)
+						argVals[k.name], argCanon[k.name] = t, cn
+						pair.vals, pair.canon = append(pair.vals, t), append(pair.canon, cn)
+						pair.keysA[k.name] = true
+					}
+				}
+			} else {
+				fileVals = pair.fileVals
+				var free []key
+				for _, k := range floats {
+					if !pair.keysA[k.name] {
+						free = append(free, k)
+					}
+				}
+				if len(free) >= len(pair.vals) {
+					pick := r.Perm(len(free))[:len(pair.vals)]
+					chosen := map[int]bool{}
+					for _, j := range pick {
+						chosen[j] = true
+					}
+					n := 0
+					for j, k := range free {
+						if chosen[j] {
+							argVals[k.name], argCanon[k.name] = pair.vals[n], pair.canon[n]
+							n++
+						}
+					}
+				}
 			}
 		}
 		// a configuration that changes the date format also gives its end date in a form both long formats read
@@ -218,11 +282,16 @@ func cmdKConfig(args []string) error {
 		}
 		argVals["project"] = "p"
 		hasFile := len(fileVals) > 0 || mode%2 == 0
-		if hasFile {
+		if hasFile && !isB {
 			os.WriteFile(filepath.Join(pd, "config.yml"), []byte(yml.String()), 0644)
 		}
 		g := hermes.NewGlobalVarsMain()
 		g.Session = hermes.NewHermesSession()
+		if isA {
+			pair.session = g.Session
+		} else if isB {
+			g.Session = pair.session
+		}
 		hp := hermes.NewHermesFilePath(root, "p", "x", "", "")
 		// a configuration reader that panics on a line of the stated domain gives no value at all: every key of the case
 		// is reported with the effective value "<panic>"
@@ -269,7 +338,12 @@ func cmdKConfig(args []string) error {
 			e["hasArg"], e["arg"] = ha, ac
 			w.Write(e)
 		}
-		os.RemoveAll(root)
+		if isB {
+			pair = nil
+		}
+		if !isA {
+			os.RemoveAll(root)
+		}
 	}
 	return nil
 }
